@@ -146,6 +146,11 @@ class ExprMixin:
         if k == "str":
             return v.t != str_id("")
         if k == "ref":
+            for cn in self.reg.class_chain(v.ty.arg):
+                cd = self.reg.classes.get(cn)
+                if cd is not None and getattr(cd, "truth_len", None):
+                    # the class defines __len__: `if obj:` tests len(obj) != 0
+                    return self.list_len(self.read_field(v, cd.truth_len, st, True), st) != 0
             return z3.BoolVal(True)
         if k == "list":
             return self.list_len(v, st) != 0
@@ -566,12 +571,24 @@ class ExprMixin:
             if z3.is_rational_value(sb) and sb.denominator_as_long() == 1 and 0 <= sb.numerator_as_long() <= 8:
                 return self.power(a, mk_int(sb.numerator_as_long()), st, spec)
         f = z3.Function("pow_real", z3.RealSort(), z3.RealSort(), z3.RealSort())
-        self.ctx.models_used.add("pow: uninterpreted real function; 0 <= x <= 1 and exponent >= 1 imply 0 <= x**n <= 1 (A5)")
+        self.ctx.models_used.add("pow: uninterpreted real function with the sign / unit-interval facts of x**y for x >= 0 (A5): "
+                                 "x**y >= 0; x > 0 => x**y > 0; 0 <= x <= 1, y >= 0 => x**y <= 1; x >= 1, y <= 0 => x**y <= 1; "
+                                 "x >= 1, y >= 0 => x**y >= 1")
         x, n = z3.Reals("pw_x pw_n")
-        ax = z3.ForAll([x, n], z3.Implies(z3.And(0 <= x, x <= 1, n >= 1), z3.And(f(x, n) >= 0, f(x, n) <= 1)), patterns=[f(x, n)], qid="el_pow")
+        ax = z3.ForAll([x, n], z3.Implies(x >= 0, z3.And(
+            f(x, n) >= 0, z3.Implies(x > 0, f(x, n) > 0),
+            z3.Implies(z3.And(x <= 1, n >= 0), f(x, n) <= 1),
+            z3.Implies(z3.And(x >= 1, n <= 0), f(x, n) <= 1),
+            z3.Implies(z3.And(x >= 1, n >= 0), f(x, n) >= 1))), patterns=[f(x, n)], qid="el_pow")
         if st is not None and not any(ax.eq(p) for p in st.pc):
             st.pc.append(ax)
-        return SV(REAL, f(self.to_real(a), self.to_real(b)))
+        ar, br = self.to_real(a), self.to_real(b)
+        if not spec and st is not None and getattr(self.contract, "options", {}).get("pow_safety", True):
+            if b.ty.kind == "real":
+                # Python: a negative base with a non-integral exponent yields a complex number (** and pow) or ValueError (math.pow)
+                self.ctx.oblige(st, "safe:pow", ar >= 0, text="real-valued power: base >= 0 for a real exponent")
+            self.ctx.oblige(st, "safe:pow", z3.Or(ar != 0, br >= 0), text="0 ** negative exponent")
+        return SV(REAL, f(ar, br))
 
     def unopt(self, v, st, spec):
         if not spec:
@@ -759,11 +776,13 @@ class ExprMixin:
             i = self.ctx.fresh("i", z3.IntSort())
             st.qdepth += 1
             st.qids.add(i.get_id())
+            st.qguards.append(z3.And(0 <= i, i < ln))
             try:
                 return self._contains_seq(e, arr, off, ln, i, item, st, spec)
             finally:
                 st.qdepth -= 1
                 st.qids.discard(i.get_id())
+                st.qguards.pop()
         raise Unsupported("membership in %r" % (container.ty,))
 
     def _contains_seq(self, e, arr, off, ln, i, item, st, spec):
